@@ -119,6 +119,11 @@ def generate(tier, rng):
         if "history" not in c:
             c["history"] = sd.HISTORIES[i % 4]
         c.setdefault("layout", "F" if (i // 4) % 2 else "C")      # the memory layout of the driver array
+    # a lifetime model in use whose inflow instant / quadrature order is re-assigned between two computations (without declaring the
+    # parameters again): whichever settings the second computation goes by, its stock, inflow and outflow are balanced
+    # (library distributions only; judged by the oracle's identities, not sent to the model)
+    for c in [c for c in cases if c["stream"] == "tolerance" and c["cls"] in ("idsm", "sdsm")][::3]:
+        cases.append(dict(c, history="resettled"))
     return cases
 
 
